@@ -200,6 +200,8 @@ pub fn evaluate(spec: &Spec, completed: bool) -> Vec<Violation> {
             "c03_relay" => data::c03_relay(&mut cx),
             "c04_bound" => control::c04_bound(&mut cx),
             "c04_capacity" => control::c04_capacity(&mut cx),
+            // "staying usable" after a refusal: what a client sends and receives afterwards is still its own
+            "c04_usable" => data::relay_check(&mut cx, "C04", false),
             "c12_params" => data::c12_params(&mut cx),
             "c08_cache" => cache::c08_cache(&mut cx),
             "c16_pause" => control::c16_pause(&mut cx),
